@@ -60,6 +60,10 @@ def _work(case):
 def make_cases(ops, cfgname, nA, nB, order_mode, want, budget, builder_sizes=(1, 2, 3)):
     cases = []
     for op in ops:
+        if op == 'builder':
+            for k in range(1, nA + 1):
+                cases.append((op, (0,) * k, None, cfgname, order_mode, want, budget))
+            continue
         for shA in shapes(nA):
             if op == 'insert':
                 for nb in builder_sizes:
